@@ -71,6 +71,33 @@ Example C49_refuted_witness :
               load (print c2) = Ok c2).
 Proof. exact refuted_witness. Qed.
 
+(* Idempotence of load-after-print ("load (print (load (print c))) = load (print c)"), PARTIAL.
+   Full statement: forall c, wtb top_ty c = true -> forall c1, load (print c) = Ok c1 ->
+   load (print c1) = Ok c1.  Proved: the same statement for every schema whose hooks only check
+   (return their argument or an error) and whose base values are valid — for ALL well-typed
+   values, lossy or not — and its instances for the sections remote_read, remote_write (with
+   queue_config and metadata_config), alerting (alertmanagers, relabel rules), otlp,
+   scrape_configs before Validate, relabel rule lists and rule_files.  Missing: the hooks that
+   fill values (GlobalConfig.UnmarshalYAML, TSDBConfig.UnmarshalYAML, ScrapeConfig.Validate and
+   the top-level pass); for those idempotence is checked on every harness case (c3 = c2). *)
+Theorem C49_idempotent_partial : forall t cur, In (t, cur) check_only_sections ->
+  forall v v1, wtb t v = true ->
+  decode reset post t cur (pr t v) = Ok v1 -> decode reset post t cur (pr t v1) = Ok v1.
+Proof. exact idempotent_sections. Qed.
+
+Theorem C49_idempotent_check_only_generic : forall reset post t cur v v1,
+  nodup_keys t = true -> check_only post t -> bases_ok reset post t cur = true -> wtb t v = true ->
+  decode reset post t cur (pr t v) = Ok v1 -> decode reset post t cur (pr t v1) = Ok v1.
+Proof. exact idempotent_check_only. Qed.
+
+(* non-vacuity: the lossy remote_read witness is in the domain of C49_idempotent_partial (its
+   first reload differs from it, the second does not) *)
+Example C49_idempotent_nonvacuous :
+  exists v v1, wtb (TSeq (TPtr rr_ty)) v = true /\
+               decode reset post (TSeq (TPtr rr_ty)) (NSeq []) (pr (TSeq (TPtr rr_ty)) v) = Ok v1 /\
+               node_eqb v v1 = false.
+Proof. exact idempotent_sections_example. Qed.
+
 (* Non-vacuity of C49_roundtrip: a configuration with nine sections, inherited and defaulted
    values, explicit empty separator/replacement and false HTTP flags is valid and lossless. *)
 Example C49_nonvacuous :
